@@ -11,6 +11,12 @@ property predicate (ctx.fail):
   * every super-read allele not flagged as tie agrees with every cost-optimal allele assignment of its column
     under the returned (partition, transmission) — checked by an independent Python enumeration
   * exception "Mendelian conflict"  <=>  no feasible solution
+input conversion: the model is asked with the RAW input (the variants read back from the very ReadSet object the
+  solver was constructed from, in ReadSet order, plus the `positions` argument); Lean's `mkInst` (model of
+  `ColumnIterator`, Model/C01Input.lean) turns it into the column instance.  Cross-check on every case
+  (ctx.disagree "c01.mkinst"): Lean's instance == the Python conversion `py_mkinst(raw)` == the generator's column
+  form.  Rejected inputs (unsorted ReadSet, read with unsorted variants, read without variants): the constructor's
+  exception must be the rejection reason `mkInst` gives.
 correspondence (ctx.disagree): model cost == impl cost; model super-reads for the implementation's witness ==
   implementation's super-reads (tie flags included); table-based column cost == direct column cost.
 """
@@ -19,7 +25,8 @@ import itertools, json, math
 RULE = ("random (Ped)MEC instances: 1-2 unrelated individuals, trios, quartets; reads as intervals with gaps, alleles "
         "from a hidden truth plus noise, weights 1..40 with many equal weights (ties), trusted genotypes (consistent "
         "or random/conflicting) or phred likelihood triples, recombination costs 0..30, optional read-less columns "
-        "via the positions argument; long-thin instances for the sqrt(n) checkpointing. Non-trivial = at least two "
+        "via the positions argument, optional variants at positions that are no columns (skipped by the column iterator), "
+        "optional positions=None (columns = covered positions); rejected ReadSets (unsorted, unsorted variants, empty read); long-thin instances for the sqrt(n) checkpointing. Non-trivial = at least two "
         "reads sharing a column and at least two columns; distinct = distinct serialised instance")
 ASSUMPTIONS = ["32-bit overflow of finite costs is not modelled (generated sums stay far below 2^31)",
                "reads are given sorted (ReadSet.sort()) as the solver requires"]
@@ -114,7 +121,20 @@ def gen_instance(rng, small=False, long_thin=False):
     # optional read-less columns stay in the instance (they exist through the `positions` argument)
     inst = {"ncols": ncols, "reads": reads, "nind": nind, "trios": trios, "geno": geno, "recomb": recomb,
             "mode": mode, "use_positions": True}
-    if rng.random() < 0.2:
+    if rng.random() < 0.25:
+        # variants at genomic positions that are not columns (strictly inside the read's span): the column iterator
+        # walks over them; they must not influence anything
+        off = {}
+        for k, r in enumerate(reads):
+            if r["last"] > r["first"] and rng.random() < 0.5:
+                cs = [c for c in range(r["first"], r["last"]) if rng.random() < 0.5]
+                if cs:
+                    off[str(k)] = [[(c + 1) * 10 + 5, rng.randrange(2), rng.choice(weights)] for c in cs]
+        if off:
+            inst["offgrid"] = off
+    elif rng.random() < 0.15 and all(any(e[0] == c for r in reads for e in r["entries"]) for c in range(ncols)):
+        inst["use_positions"] = False   # positions=None: the columns are the positions covered by some variant
+    elif rng.random() < 0.2:
         # re-phasing history: some reads get their later entries only after a first solver run on the same ReadSet
         reuse = {}
         for k, r in enumerate(reads):
@@ -139,9 +159,10 @@ def run_impl(inst):
     for k, r in enumerate(inst["reads"]):
         rd = Read(f"read{k:04d}", 50, 0, ids[names[r["ind"]]])
         later = {tuple(e) for e in reuse.get(str(k), [])}
-        for c, a, w in r["entries"]:
-            if (c, a, w) not in later:
-                rd.add_variant((c + 1) * 10, a, w)
+        vs = [((c + 1) * 10, a, w) for c, a, w in r["entries"] if (c, a, w) not in later]
+        vs += [tuple(v) for v in (inst.get("offgrid") or {}).get(str(k), [])]
+        for p, a, w in sorted(vs):
+            rd.add_variant(p, a, w)
         rs.add(rd)
     # the instance lists reads already sorted by first position; ReadSet.sort() is stable w.r.t. that key only up
     # to ties, so we read the final order back
@@ -178,13 +199,14 @@ def run_on_readset(inst, rs, ids, names, first=False):
         ped.add_individual(names[i], gts, gls if distrust else None)
     for f, m, c in inst["trios"]:
         ped.add_relationship(names[f], names[m], names[c])
-    positions = [(c + 1) * 10 for c in range(inst["ncols"])]
+    positions = [(c + 1) * 10 for c in range(inst["ncols"])] if inst.get("use_positions", True) else None
     if first:
         try:
             PedigreeDPTable(rs, inst["recomb"], ped, distrust, positions)
         except RuntimeError:
             pass
         return None
+    raw = readset_raw(rs, {ids[names[i]]: i for i in range(inst["nind"])}, positions, inst)
     try:
         dp = PedigreeDPTable(rs, inst["recomb"], ped, distrust, positions)
         superreads, tv = dp.get_super_reads()
@@ -192,13 +214,98 @@ def run_on_readset(inst, rs, ids, names, first=False):
         part = dp.get_optimal_partitioning()
     except RuntimeError as e:
         if "Mendelian conflict" in str(e):
-            return {"error": "mendelian-conflict", "order": order}
+            return {"error": "mendelian-conflict", "order": order, "raw": raw}
         raise
     sr = []
     for i in range(inst["nind"]):
         a, b = list(superreads[i])
         sr.append([[(v.position // 10 - 1, v.allele) for v in a], [(v.position // 10 - 1, v.allele) for v in b]])
-    return {"cost": cost, "partition": part, "tau": list(tv), "superreads": sr, "order": order}
+    return {"cost": cost, "partition": part, "tau": list(tv), "superreads": sr, "order": order, "raw": raw}
+
+
+def readset_raw(rs, ind_of, positions, inst):
+    """the solver's real input, read back from the ReadSet object itself: reads in ReadSet order with the pedigree
+    index of their sample and their variants at genomic positions; `positions` as passed (None = default)"""
+    return {"positions": positions,
+            "reads": [{"ind": ind_of[rd.sample_id], "variants": [[v.position, v.allele, v.quality] for v in rd]}
+                      for rd in rs],
+            "nind": inst["nind"], "trios": inst["trios"], "geno": inst["geno"], "recomb": inst["recomb"]}
+
+
+def py_mkinst(raw):
+    """independent Python rendering of ColumnIterator's conversion (None = rejected)"""
+    positions = raw["positions"]
+    if positions is None:
+        positions = sorted({v[0] for r in raw["reads"] for v in r["variants"]})
+    if any(a >= b for a, b in zip(positions, positions[1:])):
+        return None
+    col = {p: i for i, p in enumerate(positions)}
+    reads, prev = [], 0
+    for r in raw["reads"]:
+        vs = r["variants"]
+        if not vs or vs[0][0] < prev or any(a[0] >= b[0] for a, b in zip(vs, vs[1:])):
+            return None
+        if vs[0][0] not in col or vs[-1][0] not in col:
+            return None
+        prev = vs[0][0]
+        reads.append({"ind": r["ind"], "first": col[vs[0][0]], "last": col[vs[-1][0]],
+                      "entries": [[col[p], a, w] for p, a, w in vs if p in col]})
+    return {"ncols": len(positions), "reads": reads, "nind": raw["nind"], "trios": raw["trios"],
+            "geno": raw["geno"], "recomb": raw["recomb"]}
+
+
+def ask_bounded(model, reqs, limit=40000):
+    """`ask_many` in batches whose serialised requests stay below the pipe capacity, so that the write of a batch
+    never blocks: `c01.mkinst` answers are whole instances, and a model blocked on a full stdout while the harness is
+    blocked writing further requests would be a deadlock"""
+    out, batch, size = [], [], 0
+    for r in reqs:
+        n = len(json.dumps(r, separators=(",", ":"))) + 1
+        if batch and (size + n > limit or len(batch) >= 200):
+            out += model.ask_many(batch)
+            batch, size = [], 0
+        batch.append(r)
+        size += n
+    if batch:
+        out += model.ask_many(batch)
+    return out
+
+
+REJECT_MESSAGES = {"reads-unsorted": "reads in ReadSet are not sorted", "variants-unsorted": "unsorted variants",
+                   "empty-read": "No variants present"}
+
+
+def run_rejected(rng):
+    """a ReadSet the constructor must refuse (only the exception paths: the assert paths would abort the
+    interpreter).  Returns (raw, message of the RuntimeError or None)"""
+    from whatshap.core import Read, ReadSet, Pedigree, PedigreeDPTable, NumericSampleIds, Genotype
+    ncols = rng.randrange(2, 7)
+    kind = rng.choice(["unsorted-reads", "unsorted-reads", "unsorted-variants", "empty-read", "mixed", "mixed", "fine"])
+    ids = NumericSampleIds()
+    rs = ReadSet()
+    nreads = rng.randrange(1, 6)
+    for k in range(nreads):
+        rd = Read(f"read{k:04d}", 50, 0, ids["ind0"])
+        cols = sorted(rng.sample(range(ncols), rng.randrange(1, ncols + 1)))
+        if kind in ("unsorted-variants", "mixed") and len(cols) >= 2 and rng.random() < 0.6:
+            rng.shuffle(cols)
+        if kind in ("empty-read", "mixed") and rng.random() < 0.3:
+            cols = []
+        for c in cols:
+            rd.add_variant((c + 1) * 10, rng.randrange(2), rng.randrange(1, 30))
+        rs.add(rd)
+    if kind in ("unsorted-variants", "empty-read", "fine") or rng.random() < 0.3:
+        rs.sort()
+    ped = Pedigree(ids)
+    ped.add_individual("ind0", [Genotype([0, 1])] * ncols, None)
+    positions = [(c + 1) * 10 for c in range(ncols)]
+    inst = {"nind": 1, "trios": [], "geno": [[[None, 0, None]] * ncols], "recomb": [0] * ncols}
+    raw = readset_raw(rs, {ids["ind0"]: 0}, positions, inst)
+    try:
+        PedigreeDPTable(rs, inst["recomb"], ped, False, positions)
+        return raw, None
+    except RuntimeError as e:
+        return raw, str(e)
 
 
 def reorder(inst, order):
@@ -208,6 +315,8 @@ def reorder(inst, order):
     j = dict(inst)
     j["reads"] = [inst["reads"][k] for k in order]
     j.pop("reuse", None)
+    if inst.get("offgrid"):
+        j["offgrid"] = {str(n): inst["offgrid"][str(k)] for n, k in enumerate(order) if str(k) in inst["offgrid"]}
     return j
 
 
@@ -303,8 +412,9 @@ def run(ctx):
     reqs = []
 
     def submit(inst_raw, brute):
-        ctx.inflight({"instance": {**model_inst(inst_raw), "mode": inst_raw["mode"], "use_positions": True,
-                                   **({"reuse": inst_raw["reuse"]} if inst_raw.get("reuse") else {})}})
+        ctx.inflight({"instance": {**model_inst(inst_raw), "mode": inst_raw["mode"],
+                                   "use_positions": inst_raw.get("use_positions", True),
+                                   **({k: inst_raw[k] for k in ("reuse", "offgrid") if inst_raw.get(k)})}})
         impl = run_impl(inst_raw)
         inst = reorder(inst_raw, impl["order"])
         ctx.evaluated()
@@ -316,13 +426,20 @@ def run(ctx):
         ctx.dist("outcome", "conflict" if "error" in impl else "solved")
         ctx.dist("readset_history", "re-phased after in-place extension" if inst_raw.get("reuse") else "fresh")
         mi = model_inst(inst)
+        raw = impl.pop("raw")
+        ctx.dist("positions_argument", "given" if raw["positions"] is not None else "None (default)")
+        ctx.dist("off_column_variants", "some" if inst_raw.get("offgrid") else "none")
+        pm = py_mkinst(raw)
+        if pm != mi:
+            ctx.disagree("c01.mkinst(python conversion vs generator's column form)", {"raw": raw}, mi, pm)
         start = len(reqs)
-        reqs.append({"op": "c01.cost", "inst": mi})
+        reqs.append({"op": "c01.mkinst", "raw": raw})
+        reqs.append({"op": "c01.cost", "raw": raw})
         if "error" not in impl:
-            reqs.append({"op": "c01.eval", "inst": mi, "beta": [bool(x) for x in impl["partition"]], "tau": impl["tau"]})
+            reqs.append({"op": "c01.eval", "raw": raw, "beta": [bool(x) for x in impl["partition"]], "tau": impl["tau"]})
         if brute:
-            reqs.append({"op": "c01.brute", "inst": mi})
-        pending.append((inst, impl, start, brute))
+            reqs.append({"op": "c01.brute", "raw": raw})
+        pending.append((inst, impl, start, brute, raw))
         if len(ctx.samples) < 3 and inst["ncols"] >= 2 and len(inst["reads"]) >= 3:
             ctx.sample({"instance": mi, "impl": {k: v for k, v in impl.items() if k != "order"}})
         if len(reqs) >= 300:
@@ -331,9 +448,15 @@ def run(ctx):
     def flush():
         if not reqs:
             return
-        ans = ctx.model.ask_many(reqs)
-        for inst, impl, start, brute in pending:
-            case = {"instance": {**model_inst(inst), "mode": inst["mode"], "use_positions": True}}
+        ans = ask_bounded(ctx.model, reqs)
+        for inst, impl, start, brute, raw in pending:
+            case = {"instance": {**model_inst(inst), "mode": inst["mode"],
+                                 "use_positions": inst.get("use_positions", True),
+                                 **({"offgrid": inst["offgrid"]} if inst.get("offgrid") else {})}}
+            if ans[start].get("inst") != model_inst(inst):
+                ctx.disagree("c01.mkinst", {**case, "raw": raw}, model_inst(inst), ans[start])
+                continue
+            start += 1
             mcost = ans[start]["cost"]
             if "error" in impl:
                 if mcost is not None:
@@ -390,6 +513,17 @@ def run(ctx):
     for _ in range(n_long):
         submit(gen_instance(rng, long_thin=True), brute=False)
     flush()
+
+    # ---- inputs the constructor refuses: the exception must be the rejection reason of `mkInst`
+    rej = [run_rejected(rng) for _ in range((80 if ctx.quick else 1500) * ctx.scale)]
+    for (raw, msg), a in zip(rej, ask_bounded(ctx.model, [{"op": "c01.mkinst", "raw": r} for r, _ in rej])):
+        ctx.evaluated()
+        why = a.get("why")
+        ctx.dist("constructor", why or "accepted")
+        ok = (msg is None and a.get("inst") is not None and a["inst"] == py_mkinst(raw)) or \
+             (msg is not None and a.get("inst") is None and REJECT_MESSAGES.get(why, "\0") in msg and py_mkinst(raw) is None)
+        if not ok:
+            ctx.disagree("c01.mkinst(rejection)", {"raw": raw}, msg or "accepted", a if msg is None else why)
 
     # ---- table-based column cost == direct column cost (the incremental table of the code)
     tab_reqs, tab_meta = [], []
